@@ -1057,6 +1057,7 @@ def run(ctx):
     ctx.rule("R-12.6", "velocity direction applied exactly once (no reverse-conditional negation before calculate_order)", floor=5)
     ctx.rule("R-12.7", "every sleeping wait loop observes the external process", floor=6)
     ctx.rule("R-12.8", "frames handed to the engines by the on-the-fly readers do not share arrays (a frame's box and coordinates are its own)", floor=3)
+    ctx.rule("R-12.13", "the TRR frames the GROMACS engine consumes while mdrun runs are complete frames: reads dominated by fresh size guards, bytes_read advanced by each returned count (shared with C13 R-13.3)", floor=3)
     ctx.rule("R-12.12", "frame indices of configuration references are never tested by truthiness (index 0 is a frame)", floor=5)
     ctx.rule("R-12.11", "no `for` variable of the engine modules is read after its loop has ended", floor=40)
     ctx.rule("R-12.10", "positional role agreement in the propagation functions: unpacked names / positional arguments sit at the position where the callee returns / expects that name", floor=15)
@@ -1084,7 +1085,9 @@ def run(ctx):
     from .shared import handed_out_buffers
     for rf in readers(ctx.tree):
         ctx.attempt(handed_out_buffers, ctx, "R-12.8", rf, "each queued frame has its own coordinate/box arrays")
-    from .shared import role_agreement, stale_loop_variable, frame_index_truthiness
+    from .shared import role_agreement, stale_loop_variable, frame_index_truthiness, RuleProxy
+    from . import c13
+    ctx.attempt(c13.trr_reader, RuleProxy(ctx, "R-12.13", " (the GROMACS engine would raise on / append a frame that mdrun has not finished writing, although the program ran fine)"))
     ctx.attempt(frame_index_truthiness, ctx, "R-12.12", ENGINE_FILES + [ENGBASE], " (the configuration propagated from / recomputed is not the referenced frame)")
     ctx.attempt(stale_loop_variable, ctx, "R-12.11", ENGINE_FILES + [ENGBASE, ENGPARTS], None, " (the frame / file / atom handled is the last one of an earlier loop)")
     P12 = ("_propagate_from", "propagate", "add_to_path", "_extract_frame", "dump_phasepoint", "dump_frame", "dump_config", "calculate_order", "get_gromacs_frames", "read_remaining_trr")
@@ -1092,6 +1095,8 @@ def run(ctx):
 
 
 VARIANTS = [
+    B("c12-trr-bytes-counted-per-frame", GROMACS, "                    if header is not None:\n                        self.bytes_read += new_bytes\n                        self.header_size = new_bytes", "                    if header is not None:\n                        self.header_size = new_bytes", "R-12.13", control=True, why="seeded C12_d (= C13_c)",
+      also=[(GROMACS, "                                    self.bytes_read += new_bytes\n                                    yield data", "                                    self.bytes_read += (\n                                        self.header_size + new_bytes\n                                    )\n                                    yield data")]),
     B("c12-dump-config-idx-truthiness", ENGBASE, "        if idx is None:\n            if pos_file != out_file:\n                self._copyfile(pos_file, out_file)\n        else:\n            logger.debug(\"Config: %s\", (config,))\n            self._extract_frame(pos_file, idx, out_file)\n", "        if idx:\n            logger.debug(\"Config: %s\", (config,))\n            self._extract_frame(pos_file, idx, out_file)\n        elif pos_file != out_file:\n            self._copyfile(pos_file, out_file)\n", "R-12.12", control=True),
     B("c12-lammps-masses-after-loop", LAMMPS, "            if not spl:\n                continue\n            # get number of atoms\n            if len(spl) == 2 and \"atoms\" == spl[1]:\n                n_atoms = int(spl[0])", "            if not spl:\n                continue\n        for _ in range(1):\n            # get number of atoms\n            if len(spl) == 2 and \"atoms\" == spl[1]:\n                n_atoms = int(spl[0])", "R-12.11", control=True),
     # ---- R-12.10
